@@ -68,7 +68,10 @@ class TimeScale:
     def __init__(self, rng):
         self.d = rng.choice([0, 0, 1, 3])
         self.offset = rng.choice([0, 0, -7, -1000000, 123456789])
-        self.mult = rng.choice([1, 1, 1000]) if self.d == 0 else 1
+        # large units make long branch-length tokens (13-16 integer digits + 17 decimals: beyond 30 characters)
+        self.mult = rng.choice([1, 1, 1000, 10 ** 12, 10 ** 15]) if self.d == 0 else 1
+        if self.mult > 1000:
+            self.offset = rng.choice([0, -7])
 
     def __call__(self, k):
         return float(Decimal((k + self.offset) * self.mult) / (Decimal(10) ** self.d))
@@ -179,14 +182,15 @@ def drive(a, rng):
     if all(t.has_single_root for t in ts.trees()) and cmap.kind == "id":
         out = io.StringIO()
         try:
-            ts.write_nexus(out, include_alignments=False)
+            nxp = rng.choice([None, None, 0, 1, 3])       # the precision argument applies to the embedded Newick strings
+            ts.write_nexus(out, include_alignments=False, **({} if nxp is None else {"precision": nxp}))
             text = out.getvalue()
             nx["skip"] = 0
             m = re.search(r"TAXLABELS (.*);", text)
             nx["taxa"] = [int(x[1:]) for x in m.group(1).split()] if m and m.group(1).strip() else []
             trees = re.findall(r"TREE t(-?[0-9.]+)\^(-?[0-9.]+) = \[&R\] (.*)", text)
             nx["intervals"] = [[cmap.back(float(l)), cmap.back(float(r))] for l, r, _ in trees]
-            nws = [t.as_newick() for t in ts.trees()]
+            nws = [t.as_newick(**({} if nxp is None else {"precision": nxp})) for t in ts.trees()]
             nx["same_newick"] = 1 if [x[2] for x in trees] == nws else 0
         except tskit.LibraryError as e:
             nx["skip"] = 0
